@@ -275,6 +275,8 @@ def variants(d):
 
 def render_decl_only(d):
     """items + the #[nutype] declaration itself (no driver)."""
+    if d.get("decl_override"):
+        return d["decl_override"]
     items, attrs = render_attrs(d)
     gen = d.get("gen_decl", "")
     src = "\n".join(items) + "\n"
